@@ -205,7 +205,8 @@ let do_tb toks now =
       | Some (OPend (sid, uid)) -> Printf.sprintf "pend:%d:u%d" (int_of_n sid) (int_of_n uid)
       | Some (OTerm u) -> Printf.sprintf "term:u%d" (int_of_n u)
       | Some (OReach u) -> Printf.sprintf "reach:u%d" (int_of_n u)
-      | Some (ORestored u) -> Printf.sprintf "restored:u%d" (int_of_n u) in
+      | Some (ORestored u) -> Printf.sprintf "restored:u%d" (int_of_n u)
+      | Some (OSynced u) -> Printf.sprintf "synced:u%d" (int_of_n u) in
     let outs = List.map (fun tok ->
       match split '/' tok with
       | ["I"; m; sv; cv] -> show (do_step (PADI (mk_tuple m sv cv))) None
@@ -233,6 +234,13 @@ let do_tb toks now =
          | Some (ORestored u) -> nonbulk := (int_of_n u, int_of_string sid, t) :: !nonbulk;
            Printf.sprintf "restored:u%d" (int_of_n u)
          | o -> show o None)
+      | "H" :: sid :: m :: sv :: cv :: rest ->
+        let t = mk_tuple m sv cv in
+        let a = match rest with [u] -> bytes_of_hex u | _ -> [] in
+        (match do_step (HASYNC (n_of_int (int_of_string sid), t, a)) with
+         | Some (OSynced u) -> nonbulk := (int_of_n u, int_of_string sid, t) :: !nonbulk;
+           Printf.sprintf "synced:u%d" (int_of_n u)
+         | o -> show o None)
       | ["P"; n; sv] ->
         let n = int_of_string n in
         let uids = ref [] in
@@ -249,7 +257,9 @@ let do_tb toks now =
           | Some (OPads (sid, _)) -> sids := int_of_n sid :: !sids
           | _ -> ()) (List.rev !uids);
         if !dead then "INADMISSIBLE" else
-        "ovl:" ^ String.concat "+" (List.map string_of_int (List.sort compare !sids))
+        (* every handler that got an id reaches the gate, and (HEAD) holds sidMu there *)
+        let k = List.length !uids in
+        "ovl:" ^ String.concat "+" (List.map string_of_int (List.sort compare !sids)) ^ Printf.sprintf "/g%d.%d" k k
       | ["C"; n; sv] ->
         let n = int_of_string n in
         let sids = ref [] in
@@ -286,7 +296,7 @@ let () =
   if Array.length Sys.argv > 3 then
     variant := (match Sys.argv.(3) with
       | "defective" -> defective | "def_iso" -> defIso | "def_sid" -> defSid
-      | "unreserved" -> unreserved | "reserve_only" -> reserveOnly | "guard_only" -> guardOnly | _ -> repaired);
+      | "no_ha_check" -> noHACheck | "unreserved" -> unreserved | "reserve_only" -> reserveOnly | "guard_only" -> guardOnly | _ -> repaired);
   let impl = Array.of_list impl in
   List.iteri (fun i line ->
     let il = if i < Array.length impl then impl.(i) else "" in
